@@ -5,13 +5,10 @@ ROOT = os.path.dirname(os.path.dirname(os.path.abspath(__file__)))
 sys.path.insert(0, ROOT)
 props = [json.loads(l) for l in open(os.path.join(ROOT, 'properties.jsonl'))]
 checks, na, engines = [], [], {}
+ENTRIES = json.load(open(os.path.join(ROOT, 'props', 'entries.json')))
 for p in props:
     pid = p['id']
-    try:
-        m = importlib.import_module('props.' + pid)
-        e = getattr(m, 'MANIFEST', None)
-    except ModuleNotFoundError:
-        e = None
+    e = ENTRIES.get(pid)
     if not e or e.get('not_applicable'):
         na.append({'property_id': pid, 'reason': (e or {}).get('not_applicable', 'contracts designed (DESIGN.md section 3) but the check is not built yet')})
         continue
@@ -19,7 +16,7 @@ for p in props:
          'thorough_cmd': './verify check %s --tier thorough' % pid,
          'evidence_file': 'evidence/%s.json' % pid, 'replay_cmd_template': './verify replay {path}',
          'engine': e.get('engine', 'PYVC'),
-         'level_claimed': {'category': getattr(m, 'LEVEL', 'proof'), 'text': e['text'], 'design_ref': e.get('design_ref', 'DESIGN.md 3 ' + pid)},
+         'level_claimed': {'category': e.get('level', 'proof'), 'text': e['text'], 'design_ref': e.get('design_ref', 'DESIGN.md 3 ' + pid)},
          'level_note': e['note'], 'technique': e.get('technique', 'contract-based deductive verification: sidecar contracts on the real functions, VCs generated from the current source, discharged by z3/cvc5')}
     checks.append(c)
     for en in e.get('engine', 'PYVC').split('+'):
